@@ -86,4 +86,3 @@ func (r verifRandReader) Read(p []byte) (int, error) {
 	}
 	return n, nil
 }
-
